@@ -392,3 +392,55 @@ def r_temporaries(P, R):
             'exception leaves the counts raised with no live Function',
             unit=ld.unit.rel, line=acq.lineno)
 r_temporaries.NAME = 'R-PAIR(loader temporaries)'
+
+
+def r_tempdir(P, R):
+    """The temporary shelf directory is removed on every exit: nothing
+    that can fail stands between its creation and the try/finally that
+    removes it."""
+    n = 0
+    for q in ('dd._copy.load_json', 'dd._copy.dump_json'):
+        f = P.func(q)
+        body = f.node.body
+        mk = None
+        for i, st in enumerate(body):
+            if any(au.call_name(c) == 'makedirs' for c in au.calls_in(st)):
+                mk = i
+        if mk is None:
+            R.undecided('R-PAIR', q, 'temporary directory', 'not created '
+                        'here')
+            continue
+        n += 1
+        arg = None
+        for c in au.calls_in(body[mk], 'makedirs'):
+            arg = au.src(c.args[0]) if c.args else None
+        nxt = body[mk + 1] if mk + 1 < len(body) else None
+        covered = isinstance(nxt, ast.Try) and any(
+            au.call_name(c) == 'rmtree' and c.args and au.src(
+                c.args[0]) == arg
+            for st in nxt.finalbody for c in au.calls_in(st))
+        if covered:
+            R.holds('R-PAIR', q, f'makedirs({arg}) is immediately followed '
+                    'by try/finally: rmtree on every exit')
+        else:
+            gap = [st for st in body[mk + 1:] if not isinstance(st, ast.Try)]
+            later = [st for st in body[mk + 1:] if isinstance(st, ast.Try)
+                     and any(au.call_name(c) == 'rmtree'
+                             for x in st.finalbody
+                             for c in au.calls_in(x))]
+            if later:
+                R.violation(
+                    'R-PAIR', 'tempdir-leak', q, 'makedirs',
+                    f'`{au.short(gap[0], 60)}` runs after the temporary '
+                    f'directory {arg} was created and before the '
+                    'try/finally that removes it: if it raises (an '
+                    'unreadable file), the directory stays and every '
+                    'later JSON dump or load fails with FileExistsError',
+                    unit=f.unit.rel, line=gap[0].lineno)
+            else:
+                R.violation(
+                    'R-PAIR', 'tempdir-leak', q, 'rmtree',
+                    f'the temporary directory {arg} is not removed in a '
+                    'finally block', unit=f.unit.rel, line=f.lineno)
+    R.floor('R-PAIR temporary directories', n, 2)
+r_tempdir.NAME = 'R-PAIR(temporary directory)'
